@@ -149,10 +149,12 @@ type c12gen struct {
 	macs  []string
 }
 
-var c12names = []string{"a", "b", "c", "g1"}
+// z is bound nowhere outside the program: a binding of it that survives its construct shows at the next probe
+var c12names = []string{"a", "b", "c", "z", "g1"}
+var c12set = c12names[:4]
 
 func (g *c12gen) lit() string {
-	return g.r.Pick([]string{"7", "8", `"x"`, `"y"`, "a", "b", "c", "g1"})
+	return g.r.Pick([]string{"7", "8", `"x"`, `"y"`, "a", "b", "c", "g1", "z"})
 }
 
 func (g *c12gen) nodes(d int) []snode {
@@ -168,17 +170,17 @@ func (g *c12gen) node(d int) snode {
 	r := g.r
 	if d <= 0 || r.Chance(1, 3) {
 		if r.Chance(1, 3) {
-			return snode{k: "set", name: r.Pick(c12names[:3]), val: g.lit()}
+			return snode{k: "set", name: r.Pick(c12set), val: g.lit()}
 		}
 		return snode{k: "probe", name: r.Pick(c12names)}
 	}
 	switch r.Intn(8) {
 	case 7:
-		return snode{k: "forempty", name: r.Pick(c12names[:3]), body: g.nodes(d - 1)}
+		return snode{k: "forempty", name: r.Pick(c12set), body: g.nodes(d - 1)}
 	case 0:
-		return snode{k: "with", name: r.Pick(c12names[:3]), val: g.lit(), body: g.nodes(d - 1)}
+		return snode{k: "with", name: r.Pick(c12set), val: g.lit(), body: g.nodes(d - 1)}
 	case 1:
-		return snode{k: "for", name: r.Pick(c12names[:3]), body: g.nodes(d - 1)}
+		return snode{k: "for", name: r.Pick(c12set), body: g.nodes(d - 1)}
 	case 2:
 		return snode{k: "if", body: g.nodes(d - 1)}
 	case 3:
@@ -187,7 +189,7 @@ func (g *c12gen) node(d int) snode {
 		}
 		name := fmt.Sprintf("m%d", len(g.macs))
 		np := r.Intn(3)
-		ps := append([]string{}, c12names[:np]...)
+		ps := append([]string{}, c12set[:np]...)
 		g.depth++
 		body := g.nodes(d - 1)
 		g.depth--
@@ -215,7 +217,7 @@ func (g *c12gen) node(d int) snode {
 		g.macs = savedM
 		n := snode{k: "include", file: fn, only: r.Chance(1, 3)}
 		if r.Bool() || n.only {
-			n.name = r.Pick(c12names[:3])
+			n.name = r.Pick(c12set)
 			n.val = g.lit()
 		}
 		return n
@@ -275,6 +277,21 @@ func fixCalls(ns []snode, arity map[string]int) {
 		}
 		fixCalls(ns[i].body, arity)
 	}
+}
+
+// dumpCtx renders a context with everything reachable inside it (keys sorted), so that a change
+// inside a slice or map the caller handed over is seen
+func dumpCtx(c pongo2.Context) string {
+	var ks []string
+	for k := range c {
+		ks = append(ks, k)
+	}
+	sort.Strings(ks)
+	var sb strings.Builder
+	for _, k := range ks {
+		sb.WriteString(k + "=" + showGo(c[k], 0) + ";")
+	}
+	return sb.String()
 }
 
 func deepCopyCtx(c pongo2.Context) pongo2.Context {
@@ -355,7 +372,15 @@ func suiteC12(cfg Config, res *Result) {
 	}
 	for i := 0; i < nd; i++ {
 		var pc ProgCase
-		if i%2 == 0 && len(cases) > 0 {
+		if i%7 == 3 {
+			// loops that ask for another order over the caller's own slices and maps
+			ct := CtxTerm{Names: []string{"ul", "us", "um", "ua"}, Vals: []VT{vList("int", vInt(3), vInt(1), vInt(2)), vList("string", vStr("b"), vStr("c"), vStr("a")),
+				vSMap([]string{"k2", "k1"}, []VT{vInt(2), vInt(1)}), vList("any", vStr("z"), vStr("y"))}}
+			pc = ProgCase{Src: rng.Pick([]string{"{% for x in ul sorted %}{{ x }}{% endfor %}", "{% for x in us sorted %}{{ x }}{% endfor %}{% for x in us %}{{ x }}{% endfor %}",
+				"{% for x in ul reversed sorted %}{{ x }}{% endfor %}", "{% for x in gl sorted %}{{ x }}{% endfor %}{% for x in gs reversed sorted %}{{ x }}{% endfor %}",
+				"{% for k, v in um sorted %}{{ k }}{% endfor %}{% for x in ua sorted %}{{ x }}{% endfor %}", "{% for x in ul reversed %}{{ x }}{% endfor %}{{ ul|slice:\"1:\"|join:\",\" }}{{ us|first }}"}), Ctx: &ct}
+			pc.Globals = CtxTerm{Names: []string{"gl", "gs"}, Vals: []VT{vList("int", vInt(9), vInt(7), vInt(8)), vList("string", vStr("q"), vStr("p"))}}
+		} else if i%2 == 0 && len(cases) > 0 {
 			pc = cases[rng.Intn(len(cases))]
 		} else {
 			pc = NewGen(rng.Fork()).Program(1 + rng.Intn(5))
@@ -374,7 +399,14 @@ func suiteC12(cfg Config, res *Result) {
 		ctx := pc.Ctx.Go()
 		ctxBefore := deepCopyCtx(ctx)
 		globBefore := deepCopyCtx(set.Globals)
+		dumpBefore, gdumpBefore := dumpCtx(ctx), dumpCtx(set.Globals)
 		execOnce(tpl, ctx)
+		if d := dumpCtx(ctx); d != dumpBefore {
+			res.add(Finding{Kind: "oracle", Proj: "reference", Sig: "c12-caller-context-modified", Case: pc.String(), Impl: d, Model: "the caller's Context is unchanged, also inside its slices and maps: " + dumpBefore})
+		}
+		if d := dumpCtx(set.Globals); d != gdumpBefore {
+			res.add(Finding{Kind: "oracle", Proj: "reference", Sig: "c12-globals-modified", Case: pc.String(), Impl: d, Model: "the set's Globals are unchanged, also inside their slices and maps: " + gdumpBefore})
+		}
 		if !reflect.DeepEqual(ctx, ctxBefore) {
 			res.add(Finding{Kind: "oracle", Proj: "reference", Sig: "c12-caller-context-modified", Case: pc.String(), Impl: fmt.Sprint(ctx), Model: "the caller's Context is unchanged"})
 		}
